@@ -29,6 +29,7 @@ def eval_post(I, res, emit, slf, pt, value_of=None, props_value=("C01",), who=""
     DomainError => not D; CoordinateMissing => not S; nothing else escapes."""
     d = spec.den(I, slf, pt)
     S = spec.supplies(I, slf, pt)
+    memo_coherent_at_exit(I, emit, slf, pt)
     if res.outcome[0] == "ret":
         r = res.outcome[1]
         if not is_num(r):
@@ -47,3 +48,18 @@ def eval_post(I, res, emit, slf, pt, value_of=None, props_value=("C01",), who=""
             emit("CoordinateMissing=>notS", ["C14"], z3.Not(S))
         else:
             emit("no-other-exception", ["C17"], z3.BoolVal(False), info=f"{k} raised at {res.outcome[2]}")
+
+
+def memo_coherent_at_exit(I, emit, slf, pt):
+    """C09 P2: whatever the outcome, the memo of self is left None or (D, S, V(self,p))."""
+    from ..interp import LazyOpt
+    if not (isinstance(slf, Obj) and "_value" in slf.fields):
+        return
+    v = slf.fields["_value"]
+    d = spec.den(I, slf, pt)
+    if isinstance(v, LazyOpt) or v is None:
+        return                      # untouched coherent pre-state, or None
+    if is_num(v):
+        emit("memo-coherent-at-exit", ["C09"], z3.And(d.D, spec.supplies(I, slf, pt), real_term(v) == d.V))
+    else:
+        emit("memo-coherent-at-exit", ["C09"], z3.BoolVal(False), info=repr(v))
